@@ -296,7 +296,8 @@ def fam_checksum(tier):
         for c in cks:
             sc.line(nmea.line(ck=c, **kw), 0, dec)
         true = nmea.xor(nmea.body(**{k: v for k, v in kw.items() if k in ("addr", "n", "k", "sid", "chan", "payload", "fill")}))
-        for form in ("%02x", "%03X", "%08X", "%09X", "0%02x", "%X"):
+        for form in ("%02x", "%03X", "%08X", "%09X", "0%02x", "%X", "1%02X", "F%02x", "10%02X", "FFFFFF%02X", "100000%02X",
+                     "0000001%02X", "%02XA", "%02X0", "%02Xg", "%02X*", "%02X,"):
             for c in (true, true ^ 1, true ^ 0x10, true ^ 0x80, (true + 1) & 255):
                 sc.line(nmea.line(ck=(form % c).encode(), **kw), 0, 0)
         # single-byte corruptions
@@ -375,6 +376,12 @@ def fam_grammar(tier):
                    b"0FF", b"1FF", b"G7", b"7G", b" 7", b"0x7"):
         body = nmea.body(payload=pay)
         sc.line(b"!" + body + b"*" + ckform, 0, 0)
+    # checksum fields wider than a byte whose LOW byte is the right value
+    body = nmea.body(payload=pay)
+    x = nmea.xor(body)
+    for form in ("1%02X", "F%02X", "01%02X", "100%02X", "FFFFFF%02X", "000001%02X", "%02X%02X", "0000000%02X", "00000000%02X", "1000000%02X"):
+        v = (form % ((x, x) if form.count("%") == 2 else x)).encode()
+        sc.line(b"!" + body + b"*" + v, 0, 0)
     b0 = nmea.body(payload=pay)
     c0 = b"%02X" % nmea.xor(b0)
     extras = [b"!" + b0, b"!" + b0 + b"*", b"!" + b0 + b"*" + c0 + b"\r\n", b"!" + b0 + b"*" + c0 + b"\r",
@@ -448,6 +455,22 @@ def fam_fields(tier):
                   tag=rnd.choice([None, None, b"c:123", b"", b"s:x,c:1*5C"]), lower=rnd.random() < 0.3,
                   tail=rnd.choice([b"", b"", b"\r", b"\r\n", b" trailing"]))
         both(nmea.line(**kw))
+    # groups after abandoned groups / deliveries / noise, with and without a sequence id
+    for gi in range(300 if thorough else 40):
+        sc.unit()
+        sc.new(0)
+        sc.new(1)
+        for rep in range(3):
+            sid = rnd.choice([None, None, 0, 3, 255])
+            if rnd.random() < 0.6:      # an abandoned group first
+                n0 = rnd.randrange(2, 5)
+                for k in range(1, rnd.randrange(2, n0 + 1)):
+                    both(nmea.line(n=n0, k=k, sid=rnd.choice([sid, sid, None, 1]), payload=rand_armor(rnd, rnd.randrange(1, 9))))
+            n = rnd.randrange(2, 5)
+            for k in range(1, n + 1):
+                if rnd.random() < 0.2:
+                    both(noise_line(rnd))
+                both(nmea.line(n=n, k=k, sid=sid, payload=rand_armor(rnd, rnd.randrange(1, 9)), fill=rnd.randrange(6) if k == n else 0))
     # one long group: fragment numbers 1..255 (and counts up to 255)
     for big in ([255, 40] if thorough else [255]):
         sc.unit()
@@ -1045,8 +1068,10 @@ def fam_seq(tier):
         sc.new(0)
         ids = rnd.choice([[None, 1, 2], [0, 1, 2, 3, 4, 5, 6, 7, 8, 9], [None], [7], list(range(250, 256)), [None, 0, 255, 10]])
         L = rnd.choice([50, 80, 120, 500]) if thorough else rnd.choice([30, 50, 80])
+        decmode = si % 3          # 0: never decode, 1: always (payloads rarely decode: error path), 2: random
         for kw in random_stream(rnd, L, ids, maxn=rnd.choice([3, 5, 9])):
-            sc.line(nmea.line(**kw), 0, 0)
+            dec = 0 if decmode == 0 else 1 if decmode == 1 else rnd.randrange(2)
+            sc.line(nmea.line(**kw), 0, dec)
     return sc
 
 
